@@ -286,6 +286,60 @@ def _callable(draw, idx, hostile, annotate):
             'since': draw(st.sampled_from([None, None, '1.2'])), 'deprecated': draw(st.sampled_from([None, None, None, '1.4: Use something else']))}
 
 
+ARRAYABLE = ('strv', 'int*', 'guint8*', 'rec**', 'gboolean*')
+LENGTHISH = ('int', 'guint', 'gsize')
+
+
+def _twin(draw, callables):
+    """A second callable with the signature and annotations of an existing one, differing in ONE annotation detail of one
+    value (an array that is / is not zero-terminated, with the same element type and the same length parameter or fixed
+    size; a transfer mode; nullable). Two values that differ in one flag only are what a cache or a de-duplication keyed
+    on too little would confuse; the pair is forced onto both callables so that both variants are in one namespace."""
+    import copy
+    base = callables[draw(st.integers(0, len(callables) - 1))]
+    vals = [(nm, k) for nm, k in zip(base['names'], base['kinds'])]
+    if base['ret'] != 'void':
+        vals.append(('Returns', base['ret']))
+    arr = [nm for nm, k in vals if k in ARRAYABLE]
+    op = draw(st.sampled_from(['zt', 'zt', 'zt', 'transfer', 'nullable']))
+    t = copy.deepcopy(base)
+    t['idx'] = len(callables)
+    t['ident_ann'] = []
+    t['twin_of'] = base['idx']
+    if op == 'zt':
+        if not arr:
+            return None
+        nm = draw(st.sampled_from(arr))
+        lens = [n2 for n2, k in zip(base['names'], base['kinds']) if k in LENGTHISH and n2 != nm]
+        dim = draw(st.sampled_from(['fixed-size=4'] + ['length=%s' % x for x in lens] * 2))
+        keep = [a for a in (base['ann'].get(nm) or []) if not a.startswith('(array') and not a.startswith('(type')
+                and not a.startswith('(element-type')]
+        first = draw(st.booleans())
+        base['ann'][nm] = keep + ['(array %s%s)' % (dim, ' zero-terminated=1' if first else '')]
+        t['ann'][nm] = keep + ['(array %s%s)' % (dim, '' if first else ' zero-terminated=1')]
+        t['twin_op'] = 'zero-terminated'
+    elif op == 'transfer':
+        ptrs = [nm for nm, k in vals if 'pointer' in kind_tags(k)]
+        if not ptrs:
+            return None
+        nm = draw(st.sampled_from(ptrs))
+        keep = [a for a in (base['ann'].get(nm) or []) if not a.startswith('(transfer')]
+        a, b = draw(st.sampled_from([('full', 'none'), ('none', 'full'), ('container', 'full'), ('full', 'container')]))
+        base['ann'][nm] = keep + ['(transfer %s)' % a]
+        t['ann'][nm] = keep + ['(transfer %s)' % b]
+        t['twin_op'] = 'transfer'
+    else:
+        ptrs = [nm for nm, k in vals if 'pointer' in kind_tags(k)]
+        if not ptrs:
+            return None
+        nm = draw(st.sampled_from(ptrs))
+        keep = [a for a in (base['ann'].get(nm) or []) if a not in ('(nullable)', '(allow-none)', '(not nullable)', '(optional)', '(not optional)')]
+        base['ann'][nm] = keep + ['(nullable)']
+        t['ann'][nm] = keep
+        t['twin_op'] = 'nullable'
+    return t
+
+
 def _callable_decl(c):
     params = [param(nm, kind_type(k)) for nm, k in zip(c['names'], c['kinds'])]
     if c['varargs']:
@@ -342,6 +396,11 @@ def api(draw, hostile=True, annotate=True, max_callables=6, with_gobject=True):
     decls = fixed_decls(order_seed, with_gobject)
     n = draw(st.integers(1, max_callables))
     callables = [draw(_callable(i, hostile, annotate)) for i in range(n)]
+    twin = None
+    if annotate and draw(st.booleans()):
+        twin = _twin(draw, callables)
+        if twin is not None:
+            callables.append(twin)
     rec_fields = draw(st.lists(st.sampled_from(REC_FIELDS_POOL + ['usercb'] * 4), min_size=1, max_size=5))
     # resolve 'usercb' to one of the callback typedefs generated in this case (the fixed FooCallback otherwise)
     cbs = ['FooFunc%d' % c['idx'] for c in callables if c['shape'] == 'callback']
